@@ -148,6 +148,36 @@ pub fn execute(plan: CheckPlan) -> i32 {
             JobOutcome::Died { index, how } => dead.push((i, index, how)),
         }
     }
+    // a job that lost its worker at scenario i is continued from i+1 (the death itself is handled below)
+    let mut pending: Vec<(usize, i64)> = dead.iter().filter(|d| d.1 >= 0).map(|d| (d.0, d.1)).collect();
+    let mut rounds = 0;
+    while !pending.is_empty() && rounds < 64 {
+        rounds += 1;
+        let specs: Vec<JobSpec> = pending
+            .iter()
+            .map(|(ji, idx)| {
+                let mut s = plan.jobs[*ji].clone();
+                if let serde_json::Value::Object(m) = &mut s.params {
+                    m.insert("start_index".to_string(), json!(idx + 1));
+                }
+                s
+            })
+            .collect();
+        let outs = run_jobs(&specs, &plan.opts);
+        let mut next = vec![];
+        for ((ji, _), o) in pending.iter().zip(outs.into_iter()) {
+            match o {
+                JobOutcome::Done(r) => total.merge(r),
+                JobOutcome::Died { index, how } => {
+                    dead.push((*ji, index, how));
+                    if index >= 0 {
+                        next.push((*ji, index));
+                    }
+                }
+            }
+        }
+        pending = next;
+    }
     // confirm each death alone, from its own scenario file
     for (ji, index, how) in dead {
         let spec = &plan.jobs[ji];
